@@ -92,6 +92,12 @@ pub fn js(s: &str) -> String {
     o
 }
 
+/// Inode number of a file (0 if it does not exist): renaming keeps it, copying does not
+pub fn ino(path: &std::path::Path) -> u64 {
+    use std::os::unix::fs::MetadataExt;
+    std::fs::metadata(path).map(|m| m.ino()).unwrap_or(0)
+}
+
 /// Number of open file descriptors of this process
 pub fn fds() -> usize {
     std::fs::read_dir("/proc/self/fd")
